@@ -1,5 +1,6 @@
 import PlzVerif.Base.Proto
 import PlzVerif.Model.Glob
+import PlzVerif.Model.Globber
 import PlzVerif.Model.TreeProto
 import PlzVerif.Generated.C21
 /-!
@@ -17,6 +18,10 @@ open PlzVerif PlzVerif.Walk PlzVerif.Glob PlzVerif.Proto PlzVerif.TreeProto
 def facts : Glob.Facts :=
   { reWrap := Generated.C21.reWrap, replacements := Generated.C21.replacements, doubleStar := Generated.C21.doubleStar,
     outDir := Generated.C21.outDir, hiddenPrefix := Generated.C21.hiddenPrefix, hiddenWrap := Generated.C21.hiddenWrap }
+
+def cfacts : CacheFacts :=
+  { keyHasHidden := Generated.C21.cacheKeyHasHidden, hiddenAtWalk := Generated.C21.hiddenAtWalk,
+    hiddenPerMatch := Generated.C21.hiddenPerMatch }
 
 def opts : MOpts := optsOfChain Generated.C21.replacements
 
@@ -75,11 +80,42 @@ def step (line : String) : String :=
         | some t =>
           if !(forestNamesOK f && bn.all plainName && (inc ++ exc).all modelledPattern) then "unmodelled" else
           if !selfCheck comps (walkDir facts ⟨bn⟩ comps t) (inc ++ exc ++ bn) then "SELF-CHECK-FAILED" else
-          match globAll facts ⟨bn⟩ comps t inc (exc ++ bn) (hid = "1") (sym = "1") with
+          match freshCall cfacts facts ⟨bn⟩ (.dir f) ⟨comps, inc, exc ++ bn, hid = "1", sym = "1"⟩ with
           | none => "error"
           | some l => showNames (l.foldr insertSortedDedup [])
       | _ => "bad-op"
     | _, _, _, _ => "bad-op"
+  | "globseq" :: bn :: tree :: calls =>
+    -- several Glob calls on ONE Globber (what the glob() calls of one BUILD file do); call = root/includes/excludes/h/s
+    match parseList bn with
+    | none => "bad-op"
+    | some bn =>
+      let toks := if tree = "_" then [] else tree.splitOn ","
+      match parseForest (toks.length + 1) toks with
+      | some (f, [], false) =>
+        if !nodupNames (Forest.names f) || calls.isEmpty then "bad-op" else
+        let parsed := calls.mapM fun c =>
+          match c.splitOn "/" with
+          | [root, inc, exc, hid, sym] =>
+            if (hid != "0" && hid != "1") || (sym != "0" && sym != "1") then none else
+            match nameOfHex root, parseList inc, parseList exc with
+            | some root, some inc, some exc => some (splitSlash root, inc, exc, hid == "1", sym == "1")
+            | _, _, _ => none
+          | _ => none
+        match parsed with
+        | none => "bad-op"
+        | some cs =>
+          if !(forestNamesOK f && bn.all plainName && cs.all fun c => (c.2.1 ++ c.2.2.1).all modelledPattern) then "unmodelled" else
+          let go := cs.foldl (fun (acc : Cache × List String) c =>
+            let (root, inc, exc, hid, sym) := c
+            match lookup (.dir f) root with
+            | none => (acc.1, acc.2 ++ ["no-root"])
+            | some (.leaf _) => (acc.1, acc.2 ++ ["root-not-dir"])
+            | some _ =>
+              let r := PlzVerif.Glob.step cfacts facts ⟨bn⟩ (.dir f) acc.1 ⟨root, inc, exc ++ bn, hid, sym⟩
+              (r.1, acc.2 ++ [match r.2 with | none => "error" | some l => showNames (l.foldr insertSortedDedup [])])) ([], [])
+          "|".intercalate go.2
+      | _ => "bad-op"
   | _ => "bad-op"
 
 def main : IO Unit := runStateless step
